@@ -14,5 +14,14 @@ t = open("/verif/lib/seed_prompt.txt").read()
 t = (t.replace("{WT}", wt).replace("{PID}", pid).replace("{pid}", pid.lower()).replace("{N}", n).replace("{OUT}", out)
       .replace("{TITLE}", rec["title"]).replace("{STATEMENT}", rec["statement"]).replace("{QUANT}", rec["quantifier"]["text"])
       .replace("{FILES}", ", ".join(rec["anchors"]["files"])))
+import glob
+earlier = []
+for m in sorted(glob.glob(f"/verif/seeded/{pid}-*/meta.json")):
+    j = json.load(open(m))
+    n = open(os.path.join(os.path.dirname(m), "notes.md")).read() if os.path.exists(os.path.join(os.path.dirname(m), "notes.md")) else ""
+    first = next((l.strip("# ").strip() for l in n.splitlines() if l.strip()), "")
+    earlier.append(f"- {first[:160]} (needs: {j['needs_to_manifest'][:200]})")
+if earlier:  # EARLIER
+    t += "\n\nEarlier rounds already produced the following changes for this property; produce DIFFERENT ones (other functions, other clauses of the property, other trigger classes):\n" + "\n".join(earlier) + "\n"
 open(f"/tmp/seedprompt_{pid}{tag}.txt", "w").write(t)
 print(wt, out, f"/tmp/seedprompt_{pid}{tag}.txt")
